@@ -64,24 +64,16 @@ Print Assumptions statement_then_rest.
    semicolons allowed, a statement may start with `not` - is expanded by the model of
    InfixExpandArray (over any table passing table_ok) to exactly the specification's statement
    list: the split-at-weakest tree of each statement, in order. *)
-(* PARTIAL: the premise `forallb known_tok ts` excludes blocks holding a literal of a type
-   LeftBindingPower has no case for (nil, char, uint64, ...).  Without it the statement is false of
-   the code as it is (known finding other-literal-starts-statement, Example below): a statement
-   that starts with such a literal directly after another statement (newline, no semicolon) makes
-   LeftBindingPower return an error.  With a semicolon in front (x = 5; nil) the block is fine -
-   and covered by the run. *)
-Theorem statements_in_order_any_table_partial :
+Theorem statements_in_order_any_table :
   forall E K, table_ok E K = true ->
-  forall ts xs, Doc.block ts = Some xs -> forallb known_tok ts = true ->
-    m_parse_block E K (fun _ => false) ts = ROk xs.
+  forall ts xs, Doc.block ts = Some xs -> m_parse_block E K (fun _ => false) ts = ROk xs.
 Proof. exact instance_block. Qed.
-Print Assumptions statements_in_order_any_table_partial.
+Print Assumptions statements_in_order_any_table.
 
-Theorem statements_in_order_partial :
-  forall ts xs, Doc.block ts = Some xs -> forallb known_tok ts = true ->
-    m_parse_block infix_entries infix_lbp (fun _ => false) ts = ROk xs.
+Theorem statements_in_order :
+  forall ts xs, Doc.block ts = Some xs -> m_parse_block infix_entries infix_lbp (fun _ => false) ts = ROk xs.
 Proof. exact (instance_block infix_entries infix_lbp documented_table). Qed.
-Print Assumptions statements_in_order_partial.
+Print Assumptions statements_in_order.
 
 (* ---- constructs beyond the binary / prefix / index core ---- *)
 Notation nf := (fun _ : tok => false).
@@ -165,12 +157,11 @@ Print Assumptions parses_is_a_run.
    documented one - [i] with the oracle tree of i, [a : b] / [: b] / [a :] / [:] with the oracle
    trees of the bounds (name: tokens are split into name and :), the raw tokens for a single
    token or several juxtaposed operands; for every content of any length the documentation covers *)
-Theorem selector_normalised_partial :
+Theorem selector_normalised :
   forall content s, Doc.selector content = Some s ->
-    forallb known_tok (split_colon_tail content) = true ->
     norm_selector T_E T_K nf content = ROk (sel_conv s).
 Proof. exact (inst_selector T_E T_K documented_table). Qed.
-Print Assumptions selector_normalised_partial.
+Print Assumptions selector_normalised.
 
 (* ---- go-style for headers (model: Model/PrattFor.v) ---- *)
 (* the guards the translator read from lowerGoFor / lowerRangeFor protect the index and slice
@@ -289,9 +280,10 @@ Example ex_for_malformed :
   /\ for_stmt T_E T_K for_consts nf isb nf [s "for"; s "i"; TSemi; TPair 9] = RErr
   /\ (exists x, for_stmt T_E T_K for_consts nf isb nf [s "for"; s "i"; s ":="; TPair 9] = ROk x).
 Proof. vm_compute. repeat split; try reflexivity. eexists; reflexivity. Qed.
-(* known finding: {x = 5 <newline> nil} is an error instead of (set x 5) nil *)
-Example ex_other_literal_starts_statement_refuted :
-  m_parse_block T_E T_K nf [s "x"; s "="; TInt 5; TOther 1] = RErr
+(* repaired by bfa83dc: a nil / char / uint64 literal starts a new statement after a newline too *)
+Example ex_other_literal_starts_statement :
+  m_parse_block T_E T_K nf [s "x"; s "="; TInt 5; TOther 1]
+  = ROk [Bin (s "=") (Leaf (s "x")) (Leaf (TInt 5)); Leaf (TOther 1)]
   /\ Doc.block [s "x"; s "="; TInt 5; TOther 1]
      = Some [Bin (s "=") (Leaf (s "x")) (Leaf (TInt 5)); Leaf (TOther 1)]
   /\ m_parse_block T_E T_K nf [s "x"; s "="; TInt 5; TSemi; TOther 1]
